@@ -296,7 +296,24 @@ func genC12(p *plan.Plan, r *plan.Rng, tier string) {
 			if r.Chance(2, 3) {
 				st.Probe = "mutate_input"
 			}
+			if r.Chance(1, 4) {
+				st.Probe = "scribble_spare"
+				st.T = []string{"WithBytes", "Bytes", "WithBytes", "Raw", "WithIface", "WithBytes"}[r.Intn(6)]
+				if typeMap[st.T] == nil {
+					st.T = "WithBytes"
+				}
+				st.Doc = docFor(r, st.T, 0, 1)
+			}
 			p.Sessions = append(p.Sessions, one(id("d"), st))
+		case k == 8 || k == 9:
+			// results of Extract / Path.Unmarshal kept while other calls recycle
+			// the pooled buffers
+			s := plan.Session{ID: id("P")}
+			s.Steps = append(s.Steps, plan.Step{Op: "path_new", H: "p", S1: pathTexts[r.Intn(len(pathTexts))]})
+			for k := r.Range(1, 3); k > 0; k-- {
+				s.Steps = append(s.Steps, pathStep(r, "p", false, false))
+			}
+			p.Sessions = append(p.Sessions, s)
 		case k < 15:
 			st := randEncodeStep(r, false)
 			if r.Chance(1, 2) {
